@@ -5,7 +5,7 @@ import JjModel.Lemmas.RevsetOptBase
 -/
 namespace JjModel.Revset
 
-/-- the grammar of `eval_sound_full`: everything modelled except `reachable` -/
+/-- the grammar of `eval_sound_full`: every modelled expression (with in-range commit literals) -/
 def OkEH (g : Graph) : Expr → Prop
   | .none => True
   | .all => True
@@ -27,7 +27,7 @@ def OkEH (g : Graph) : Expr → Prop
   | .union a b => OkEH g a ∧ OkEH g b
   | .inter a b => OkEH g a ∧ OkEH g b
   | .diff a b => OkEH g a ∧ OkEH g b
-  | .reachable _ _ => False
+  | .reachable s d => OkEH g s ∧ OkEH g d
 
 theorem filterOpt_cases (f : Expr) (p : PExpr) :
     (f = .all ∧ filterOpt f p = none) ∨ (f ≠ .all ∧ filterOpt f p = some p) := by
@@ -89,7 +89,9 @@ theorem resolveH_ok : ∀ (e : Expr), OkEH g e →
   | diff a b iha ihb =>
     intro hok; simp only [resolve, resolvePred, OkR, OkP]
     exact ⟨⟨(iha hok.1).1, (ihb hok.2).1⟩, (iha hok.1).2, (ihb hok.2).2⟩
-  | reachable s d _ _ => intro hok; exact absurd hok (by simp [OkEH])
+  | reachable s d ihs ihd =>
+    intro hok; simp only [resolve, resolvePred, OkR, OkP]
+    exact ⟨⟨(ihs hok.1).1, (ihd hok.2).1⟩, (ihs hok.1).1, (ihd hok.2).1⟩
 
 end
 
@@ -242,6 +244,15 @@ theorem resolveH_spec (g : Graph) (refs : List Nat) (ctx : Ctx g (refs ++ g.head
     · intro p; simp only [resolve, denoteR, denote, (iha hok.1 hr'.1).1, (ihb hok.2 hr'.2).1]
     · intro c hc
       simp only [resolvePred, denoteP, denote, (iha hok.1 hr'.1).2 c hc, (ihb hok.2 hr'.2).2 c hc]
-  | reachable s d _ _ => intro hok; exact absurd hok (by simp [OkEH])
+  | reachable s d ihs ihd =>
+    intro hok hr
+    have hr' := refsIn_append.1 hr
+    have hD : denoteR g (resolve g refs d) = denote g (refs ++ g.heads) d :=
+      funext fun x => propext ((ihd hok.2 hr'.2).1 x)
+    have : ∀ p, denoteR g (resolve g refs (.reachable s d)) p ↔
+        denote g (refs ++ g.heads) (.reachable s d) p := by
+      intro p
+      simp only [resolve, denoteR, denote, hD, (ihs hok.1 hr'.1).1]
+    exact ⟨this, fun c _ => by simpa [resolvePred, resolve, denoteP] using this c⟩
 
 end JjModel.Revset
